@@ -243,10 +243,22 @@ Proof.
       destruct (sem _ k) as [[o2 m2]|] eqn:E in Hs; [|discriminate]. injection Hs as <- <-.
       split; [exists o2, m2; rewrite Hcm; auto|].
       repeat split; auto using le_flags_clear. all: try straight_tail.
+    + (* EndCall *) injection Hst as <- <- <-. cbn [sem_cmd] in Hs. cbn [stk out dead].
+      destruct (sem _ k) as [[o2 m2]|] eqn:E in Hs; [|discriminate]. injection Hs as <- <-.
+      split; [exists o2, m2; rewrite Hcm; split; [exact E | now rewrite <- app_assoc]|].
+      repeat split; auto using le_flags_refl. all: try straight_tail.
+    + (* Fail *) cbn [sem_cmd] in Hs. discriminate.
     + (* Abort *) cbn [sem_cmd] in Hs. discriminate.
 Qed.
 
 (* ---------- shared cell: one step of a thread that cannot write it ---------- *)
+Lemma nw_next_call : forall c0 k, nw c0 k = true -> nw c0 (next_call k) = true.
+Proof.
+  induction k as [|c k IH]; intros H; [reflexivity|].
+  rewrite nw_cons in H. apply andb_true_iff in H as [Hc Hk].
+  destruct c; cbn [next_call]; auto.
+Qed.
+
 Lemma nw_step1 : forall c0 m fl t m1 fl1 t1,
   le_flags fl c0 -> nw c0 (stk t) = true ->
   step1 true m fl t = (m1, fl1, t1) ->
@@ -264,6 +276,7 @@ Proof.
     + rewrite nw_cmd_IfChanged in Hc. split; [reflexivity|].
       destruct (flag i fl) eqn:F; [|exact Hk].
       rewrite (Hle i F) in Hc. now rewrite nw_app, Hc, Hk.
+    + split; [reflexivity|]. apply nw_next_call; exact Hk.
 Qed.
 
 Lemma step1_flags : forall sh m fl t m1 fl1 t1, step1 sh m fl t = (m1, fl1, t1) -> le_flags fl1 fl.
@@ -509,10 +522,12 @@ Proof.
     rewrite E; now rewrite !app_nil_r.
 Qed.
 
-Lemma sem_member_allow : forall f i k,
+Definition ok_kind (k : fkind) : bool := match k with JsonBroken => false | _ => true end.
+
+Lemma sem_member_allow : forall f i k, ok_kind k = true ->
   sem Allow (ser_member (S f) None i k) = Some ([in_store i k], Allow).
 Proof.
-  intros f i k. destruct k; cbn [ser_member sem in_store].
+  intros f i k Hk. destruct k; try discriminate; cbn [ser_member sem in_store].
   - reflexivity.
   - rewrite sem_cmd_IfMode. cbn [branch sem]. rewrite sem_emit_string, sem_cmd_IfChanged.
     cbn [sem sem_cmd]. rewrite Nat.eqb_refl. cbn [app mode_eqb]. reflexivity.
@@ -521,24 +536,34 @@ Proof.
     cbn [sem sem_cmd sink_out app mode_eqb]. reflexivity.
 Qed.
 
-Lemma sem_members_allow : forall f mem i,
+Lemma sem_members_allow : forall f mem i, writable mem = true ->
   sem Allow (ser_members (S f) i mem) = Some (store_form i mem, Allow).
 Proof.
-  intros f mem. induction mem as [|k mem IH]; intros i; cbn [ser_members store_form]; [reflexivity|].
-  rewrite sem_app, sem_member_allow, IH. reflexivity.
+  intros f mem. induction mem as [|k mem IH]; intros i W; cbn [ser_members store_form]; [reflexivity|].
+  cbn [writable forallb] in W. apply andb_true_iff in W as [Wk Wm].
+  rewrite sem_app, (sem_member_allow f i k Wk), (IH _ Wm). reflexivity.
 Qed.
 
-Theorem sem_prog : forall f mem o,
+Lemma writable_kind_of : forall mem i, writable mem = true -> ok_kind (kind_of mem i) = true.
+Proof.
+  unfold kind_of. induction mem as [|k mem IH]; intros [|i] W; cbn [nth]; try reflexivity;
+    cbn [writable forallb] in W; apply andb_true_iff in W as [Wk Wm]; auto.
+Qed.
+
+Theorem sem_prog : forall f mem o, writable mem = true ->
   sem Allow (prog (S f) mem o) = Some (spec_out mem o, Allow).
 Proof.
-  intros f mem o. destruct o; cbn [prog spec_out sem sem_cmd].
+  intros f mem o W. destruct o; cbn [prog spec_out sem sem_cmd].
   - reflexivity.
-  - now rewrite sem_members_allow.
+  - now rewrite (sem_members_allow _ _ _ W).
   - rewrite sem_app, (sem_member_noinc _ None _ _ I). cbn [sem sem_cmd sink_out app]. reflexivity.
-  - now rewrite sem_member_allow.
+  - now rewrite (sem_member_allow _ _ _ (writable_kind_of mem i W)).
   - rewrite sem_app, (sem_member_noinc _ None _ _ I). cbn [sem sem_cmd sink_out app]. reflexivity.
   - rewrite sem_app. cbn [sem sem_cmd]. rewrite sem_app, (sem_member_noinc _ None _ _ I).
-    cbn [sem sem_cmd sink_out app]. rewrite sem_members_allow. reflexivity.
+    cbn [sem sem_cmd sink_out app]. rewrite sem_app, (sem_members_allow _ _ _ W).
+    cbn [sem sem_cmd app]. rewrite ?app_nil_r. reflexivity.
+  - rewrite sem_app, (sem_members_allow _ _ _ W). cbn [sem sem_cmd].
+    rewrite sem_app, (sem_members_allow _ _ _ W). cbn [sem sem_cmd app]. rewrite ?app_nil_r. reflexivity.
 Qed.
 
 Lemma init_thread_at : forall sc i o,
@@ -551,49 +576,52 @@ Qed.
 (* The property: every thread of every scenario obtains, under every schedule, what the
    specification says it obtains alone; what it writes to stand-off files is member content. *)
 Theorem scenario_independent : forall sc sched i o,
+  writable (members sc) = true ->
   nth_error (ops sc) i = Some o ->
   exists t', nth_error (thr (run false sched (init sc))) i = Some t' /\ dead t' = false /\ files_ok t'
              /\ (finished t' = true -> out t' = spec_out (members sc) o)
              /\ exists rest, out t' ++ rest = spec_out (members sc) o.
 Proof.
-  intros sc sched i o Ho.
+  intros sc sched i o W Ho.
   eapply independent_generic with (m1 := Allow).
   - apply init_thread_at; eauto.
   - reflexivity.
   - reflexivity.
   - reflexivity.
-  - cbn [init_thread stk tmd]. apply sem_prog.
+  - cbn [init_thread stk tmd]. apply sem_prog; exact W.
 Qed.
 
 (* Alone, every entry point yields the specified result, whatever the changed flags are. *)
 Theorem scenario_solo : forall sh sc n i o,
+  writable (members sc) = true ->
   nth_error (ops sc) i = Some o ->
   exists t', nth_error (thr (run sh (repeat i n) (init sc))) i = Some t' /\ dead t' = false
              /\ (finished t' = true -> out t' = spec_out (members sc) o).
 Proof.
-  intros sh sc n i o Ho.
+  intros sh sc n i o W Ho.
   destruct (solo_generic sh i n (init sc) (init_thread (prog model_fuel (members sc) o))
               (spec_out (members sc) o) Allow) as (t' & H1 & H2 & _ & H3 & _); eauto.
   - apply init_thread_at; eauto.
-  - destruct sh; cbn [init md init_thread stk tmd cur_mode]; apply sem_prog.
+  - destruct sh; cbn [init md init_thread stk tmd cur_mode]; apply sem_prog; exact W.
 Qed.
 
 (* the shared-cell design, outside the race class *)
 Theorem shared_scenario_guarded : forall sc sched i o,
+  writable (members sc) = true ->
   nth_error (ops sc) i = Some o ->
   Shared_mode_race (changed0 sc) (thr (init sc)) i = false ->
   exists t', nth_error (thr (run true sched (init sc))) i = Some t' /\ dead t' = false /\ files_ok t'
              /\ (finished t' = true -> out t' = spec_out (members sc) o)
              /\ exists rest, out t' ++ rest = spec_out (members sc) o.
 Proof.
-  intros sc sched i o Ho Hk.
+  intros sc sched i o W Ho Hk.
   eapply shared_guarded with (c0 := changed0 sc) (m1 := Allow); eauto.
   - apply le_flags_refl.
   - apply init_thread_at; eauto.
   - reflexivity.
   - reflexivity.
   - reflexivity.
-  - cbn [init md init_thread stk]. apply sem_prog.
+  - cbn [init md init_thread stk]. apply sem_prog; exact W.
 Qed.
 
 (* ---------- the harness granularity is a special case ---------- *)
@@ -622,13 +650,14 @@ Proof.
 Qed.
 
 Corollary scenario_independent_coarse : forall sc cs i o t',
+  writable (members sc) = true ->
   nth_error (ops sc) i = Some o ->
   nth_error (thr (run_coarse false cs (init sc))) i = Some t' ->
   files_ok t' /\ dead t' = false /\ (finished t' = true -> out t' = spec_out (members sc) o).
 Proof.
-  intros sc cs i o t' Ho Hn.
+  intros sc cs i o t' W Ho Hn.
   destruct (run_coarse_is_run false cs (init sc)) as [fs E]. rewrite E in Hn.
-  destruct (scenario_independent sc fs i o Ho) as (t2 & H1 & H2 & H3 & H4 & _).
+  destruct (scenario_independent sc fs i o W Ho) as (t2 & H1 & H2 & H3 & H4 & _).
   rewrite Hn in H1. injection H1 as <-. auto.
 Qed.
 
